@@ -317,6 +317,36 @@ def env_sources():
     return sorted(rows)
 
 
+def rule_names():
+    """the names the front end gives its simplification rules: string values assigned to `rule` in apply_transform and to `msg` in
+    apply_cond_transformation (f-strings and concatenations keep their holes as {name})"""
+    path = os.path.join(REPO, "sfs_generator", "gasol_optimization.py")
+    with warnings.catch_warnings():
+        warnings.simplefilter("ignore", SyntaxWarning)
+        tree = ast.parse(open(path).read())
+
+    def norm(v):
+        if isinstance(v, ast.Constant) and isinstance(v.value, str):
+            return v.value
+        if isinstance(v, ast.JoinedStr):
+            return "".join(p.value if isinstance(p, ast.Constant) else "{" + ast.unparse(p.value) + "}" for p in v.values)
+        if isinstance(v, ast.BinOp) and isinstance(v.op, ast.Add):
+            return norm(v.left) + norm(v.right)
+        if isinstance(v, ast.Call) and isinstance(v.func, ast.Name) and v.func.id == "str":
+            return "{" + ast.unparse(v.args[0]) + "}"
+        if isinstance(v, ast.Name):
+            return "{" + v.id + "}"
+        return "{?}"
+    names = set()
+    for f in tree.body:
+        if isinstance(f, ast.FunctionDef) and f.name in ("apply_transform", "apply_cond_transformation"):
+            var = "rule" if f.name == "apply_transform" else "msg"
+            for n in ast.walk(f):
+                if isinstance(n, ast.Assign) and len(n.targets) == 1 and isinstance(n.targets[0], ast.Name) and n.targets[0].id == var:
+                    names.add(norm(n.value).replace('"', "'"))
+    return sorted(names)
+
+
 def lean_list(xs):
     return "[" + ", ".join('"%s"' % x for x in xs) + "]"
 
@@ -352,6 +382,11 @@ def generate():
     out.append("def envSources : List String := " + lean_list(envs))
     out.append("")
     summary["env_sources"] = len(envs)
+    rn = rule_names()
+    out.append("/-- the names the front end gives its simplification rules (apply_transform, apply_cond_transformation) -/")
+    out.append("def ruleNames : List String := " + lean_list(rn))
+    out.append("")
+    summary["rule_names"] = len(rn)
     out.append("end GasolVerif.Generated")
     path = os.path.join(ROOT, "lean", "GasolVerif", "Generated", "Globals.lean")
     os.makedirs(os.path.dirname(path), exist_ok=True)
